@@ -1507,7 +1507,7 @@ class Emit:
 
 # ----------------------------------------------------------------------------- driver
 GROUP_IMPORTS = {"KPow": ["Fpdec.Gen.Consts"], "KDivRounded": ["Fpdec.Gen.KRound", "Fpdec.Gen.KPow", "Fpdec.Model.Core"],
-                 "KDecDiv": ["Fpdec.Gen.KDivRounded"], "KDecMul": ["Fpdec.Gen.KDivRounded", "Fpdec.Model.Decimal"], "KNorm": [], "KForward": ["Fpdec.Gen.KAddSub", "Fpdec.Gen.KDecOps"], "KIntConv": ["Fpdec.Gen.KPow", "Fpdec.Model.Decimal"], "KCmp": ["Fpdec.Gen.KPow", "Fpdec.Model.Decimal"], "KAddSub": ["Fpdec.Gen.KPow", "Fpdec.Model.Decimal"], "KDecUnops": ["Fpdec.Gen.KUnops", "Fpdec.Gen.KPow", "Fpdec.Model.Decimal"], "KDecOps": ["Fpdec.Gen.KDecDiv", "Fpdec.Gen.KDecMul", "Fpdec.Gen.KNorm", "Fpdec.Gen.Consts", "Fpdec.Model.Decimal"],
+                 "KDecDiv": ["Fpdec.Gen.KDivRounded"], "KDecMul": ["Fpdec.Gen.KDivRounded", "Fpdec.Model.Decimal"], "KNorm": [], "KIntOps": ["Fpdec.Gen.KDecDiv", "Fpdec.Gen.KNorm", "Fpdec.Gen.Consts", "Fpdec.Model.Decimal"], "KForward": ["Fpdec.Gen.KAddSub", "Fpdec.Gen.KDecOps"], "KIntConv": ["Fpdec.Gen.KPow", "Fpdec.Model.Decimal"], "KCmp": ["Fpdec.Gen.KPow", "Fpdec.Model.Decimal"], "KAddSub": ["Fpdec.Gen.KPow", "Fpdec.Model.Decimal"], "KDecUnops": ["Fpdec.Gen.KUnops", "Fpdec.Gen.KPow", "Fpdec.Model.Decimal"], "KDecOps": ["Fpdec.Gen.KDecDiv", "Fpdec.Gen.KDecMul", "Fpdec.Gen.KNorm", "Fpdec.Gen.Consts", "Fpdec.Model.Decimal"],
                  "KDecRound": ["Fpdec.Gen.KDivRounded", "Fpdec.Model.Decimal"],
                  "KFloat": ["Fpdec.Gen.KNorm", "Fpdec.Gen.Consts", "Fpdec.Model.Core", "Fpdec.Model.Decimal"], "KRem": ["Fpdec.Gen.KPow"], "KDecRem": ["Fpdec.Gen.KRem", "Fpdec.Model.Decimal"],
                  "KWideDiv": ["Fpdec.Gen.KWide", "Fpdec.Gen.KPow", "Fpdec.Gen.Consts", "Fpdec.Model.Core"]}
@@ -1591,6 +1591,22 @@ KERNELS = [
     ("KSwar", "fpdec-core/src/parser.rs", "chunk_to_u64", None),
     ("KUnops", "src/unops.rs", "div_floor", "i128"),
     ("KUnops", "src/unops.rs", "div_ceil", "i128"),
+    ("KIntOps", "src/binops/mul.rs", "mul", "Decimal",
+     {"as": "decimal_mul_int", "macro": ("impl_mul_decimal_and_int", 1, None, {"$t": "i64"}), "occ": 0, "ret": "Decimal"}),
+    ("KIntOps", "src/binops/mul.rs", "mul", "i64",
+     {"as": "int_mul_decimal", "macro": ("impl_mul_decimal_and_int", 1, None, {"$t": "i64"}), "occ": 1, "ret": "Decimal"}),
+    ("KIntOps", "src/binops/checked_mul.rs", "checked_mul", "Decimal",
+     {"as": "decimal_checked_mul_int", "macro": ("impl_checked_mul_decimal_and_int", 1, None, {"$t": "i64"}), "occ": 0, "ret": ("Option", "Decimal")}),
+    ("KIntOps", "src/binops/checked_mul.rs", "checked_mul", "i64",
+     {"as": "int_checked_mul_decimal", "macro": ("impl_checked_mul_decimal_and_int", 1, None, {"$t": "i64"}), "occ": 1, "ret": ("Option", "Decimal")}),
+    ("KIntOps", "src/binops/div.rs", "div", "Decimal",
+     {"as": "decimal_div_int", "macro": ("impl_div_decimal_and_int", 1, None, {"$t": "i64"}), "occ": 0, "ret": "Decimal"}),
+    ("KIntOps", "src/binops/div.rs", "div", "i64",
+     {"as": "int_div_decimal", "macro": ("impl_div_decimal_and_int", 1, None, {"$t": "i64"}), "occ": 1, "ret": "Decimal"}),
+    ("KIntOps", "src/binops/checked_div.rs", "checked_div", "Decimal",
+     {"as": "decimal_checked_div_int", "macro": ("impl_div_decimal_and_int", 1, None, {"$t": "i64"}), "occ": 0, "ret": ("Option", "Decimal")}),
+    ("KIntOps", "src/binops/checked_div.rs", "checked_div", "i64",
+     {"as": "int_checked_div_decimal", "macro": ("impl_div_decimal_and_int", 1, None, {"$t": "i64"}), "occ": 1, "ret": ("Option", "Decimal")}),
     ("KForward", "src/binops/mod.rs", "$method", "Decimal",
      {"as": "ref_add_val", "macro": ("forward_ref_binop", 0, None, {"$imp": "Add", "$method": "add"}), "occ": 0, "ret": "Decimal"}),
     ("KForward", "src/binops/mod.rs", "$method", "Decimal",
